@@ -136,8 +136,20 @@ func TestGovcBoundedC05Determinism(t *testing.T) {
   container host; }`
 	user1 := `module u1 { namespace "urn:u1"; prefix u1; import sh { prefix sh; } container c1 { uses sh:g { if-feature sh:x; sh:e "from-u1"; } } augment "/sh:host" { if-feature sh:x; uses sh:g; } }`
 	user2 := `module u2 { namespace "urn:u2"; prefix u2; import sh { prefix sh; } container c2 { uses sh:g { if-feature sh:y; sh:e "from-u2"; } } }`
+	// augments that build on each other, written outermost-last in one module, with a second module
+	// hanging one augment on the first and one on the last of the nodes so created: every round of the
+	// retry loop applies something in each module and leaves something; all must be applied in the end
+	chainBase := `module cb { namespace "urn:cb"; prefix b; container top { leaf id { type string; } } }`
+	chainPlat := `module plat { namespace "urn:plat"; prefix p; import cb { prefix b; }
+  augment "/b:top/p:slot/p:card/p:port" { leaf speed { type uint32; } }
+  augment "/b:top/p:slot/p:card" { container port { leaf nr { type uint8; } } }
+  augment "/b:top/p:slot" { container card { leaf model { type string; } } }
+  augment "/b:top" { container slot { leaf nr { type uint8; } } } }`
+	chainVendor := `module vendor { namespace "urn:vendor"; prefix v; import cb { prefix b; } import plat { prefix p; }
+  augment "/b:top/p:slot" { leaf locator-led { type boolean; } }
+  augment "/b:top/p:slot/p:card/p:port" { leaf lanes { type uint8; } } }`
 	sets := [][]string{{base, x}, {base, x, dev}, {base, x, bad1}, {base, x, bad2}, {base, x, bad1, bad2},
-		{ring1, ring2}, {tgt, rev20, rev21}, {tgt, rev20, rev21, rev22}, {shared, user1, user2}}
+		{ring1, ring2}, {tgt, rev20, rev21}, {tgt, rev20, rev21, rev22}, {shared, user1, user2}, {chainBase, chainPlat, chainVendor}}
 	evals, distinct := 0, 0
 	for si, srcs := range sets {
 		distinct++
